@@ -206,7 +206,20 @@ class BodyInfo:
         if k == "cast":
             return mk_cast(rv["ck"], self.operand(rv["op"], val), rv["ty"].get("k"))
         if k == "bin":
-            return mk_bin(rv["op"], self.operand(rv["a"], val), self.operand(rv["b"], val))
+            a, b = self.operand(rv["a"], val), self.operand(rv["b"], val)
+            r = mk_bin(rv["op"], a, b)
+            if r[0] == "bin" and rv["op"] in ("Gt", "Lt", "Ge", "Le") and self._unsigned(rv["a"], rv["b"]):
+                # comparisons of an unsigned quantity with zero that have only one possible outcome
+                from expr import is_const
+                if rv["op"] == "Gt" and is_const(a, 0):
+                    return const(0)
+                if rv["op"] == "Lt" and is_const(b, 0):
+                    return const(0)
+                if rv["op"] == "Ge" and is_const(b, 0):
+                    return const(1)
+                if rv["op"] == "Le" and is_const(a, 0):
+                    return const(1)
+            return r
         if k == "un":
             return mk_un(rv["op"], self.operand(rv["a"], val))
         if k == "discr":
@@ -220,6 +233,17 @@ class BodyInfo:
         if k == "repeat":
             return ("repeat", self.operand(rv["op"], val))
         return ("unk", "rv:" + rv.get("desc", "")[:30])
+
+    def _unsigned(self, *ops):
+        for o in ops:
+            ty = None
+            if o.get("k") in ("copy", "move") and not o["pl"]["p"]:
+                ty = self.fn.locals[o["pl"]["l"]]["ty"].get("s")
+            elif o.get("k") == "const":
+                ty = (o.get("ty") or {}).get("s")
+            if ty in ("usize", "u8", "u16", "u32", "u64", "u128"):
+                return True
+        return False
 
     def call_value(self, b, t, val):
         args = [self.operand(a, val) for a in t["args"]]
